@@ -43,7 +43,8 @@ RefStep(rs, e) ==
     \* the same response as read from a keep-alive HTTP/1.1 connection by a byte-level client: the framing the head
     \* announces must delimit exactly the encoded body (no stale length, no body that only a close would end)
     [] e.ev = "wire" ->
-         E(~e.timed_out /\ e.complete,
+         \* a body that only the end of the connection delimits is acceptable on a keep-alive request only if the response says so
+         E(~e.timed_out /\ e.complete /\ (e.framing = "close" => e.conn_close),
           E(e.framing # "cl" \/ e.cl = e.got,
            E(e.decoded_ok, rs, "C13/Wire/decoded-body-differs/" \o e.label),
            "C13/Wire/stale-content-length"),
